@@ -325,6 +325,15 @@ def run(tier: str) -> int:
     progs.append(("multi:counter", {"": c13.HDR + "from library import counter\nwhile True:\n    yield_()\n    counter.update()\n",
                                     "counter": c13.HDR + "\ncount = 0\n\ndef update():\n    global count\n    count = count + 1\n    db.Setting = count\n"}))
     progs.append(("nested_def", c13.HDR + "def outer():\n    def inner(a):\n        t = a * 2\n        db.Setting = t + a\n    inner(d0.Setting)\n    inner(3)\n\nouter()\n"))
+    # non-ASCII text reaching the output (hashed names, display strings, source comments): the size is
+    # counted in characters of `code`, one per code point, as the pinned tree does
+    progs.append(("non_ascii", c13.HDR + "# T\u00fcr \u00f6ffnen \u2013 \u4e2d\u6587\nGrowLights[\"T\u00fcr \u00d6l\"].On = d0.Setting  # \u00e4\u00f6\u00fc\ndb.Setting = HASH(\"\u00e9t\u00e9\")\nx = d1.Setting\nif x > 1:\n    db.Mode = STR(\"\u00b5\")  # \u00b5 sign\n"))
+    # constructs that involve sp / ra / aliases next to general registers
+    progs.append(("sp_ra_alias", c13.HDR + "h = WallHeater(d2, alias=True)\nk = GrowLight(d1, alias=\"LAMP\")\n\ndef f(a):\n    push(a)\n    t = pop() + sp\n    h.On = t\n    return t\n\nk.On = f(d0.Setting)\nk.Lock = f(2)\npush(ra)\n"))
+    from .. import probes as _probes
+
+    for k_, v_ in _probes.lifetime_probes()[:6] + _probes.call_probes()[:6] + _probes.loop_nest_probes()[:4]:
+        progs.append((f"probe:{k_}", v_))
     for i in range(12 if tier == "thorough" else 4):
         srcs, _f = c13.gen_multi(harness.seed() * 5003 + i + 1)
         progs.append((f"multi:{i}", srcs))
